@@ -133,3 +133,49 @@ func H_C19_invalid() {
 	zzCheckResult("after rejected call", acc, T, C)
 	vrt.Reach("done")
 }
+
+// H_C19_fp: the same step decided bit-precisely (float64 = IEEE-754 binary64, int = 64-bit words): a
+// batch of exactly n positions whose match pattern is arbitrary, from a fresh accumulator or from an
+// arbitrary small pre-state.  Whatever float arithmetic Accumulate uses on the way to its integer
+// counters must be exact for every match count, and Result must be the correctly rounded quotient.
+func H_C19_fp() {
+	n := vrt.Param("n")
+	T := vrt.Int("T", 0, 1<<20)
+	C := vrt.Int("C", 0, 1<<20)
+	vrt.Assume(C <= T)
+	acc := &Accuracy{total: T, correct: C}
+	pd := make([]float64, n)
+	td := make([]float64, n)
+	matched := 0
+	prefix := vrt.Param("prefix") == 1
+	m := 0
+	if prefix {
+		m = vrt.Int("m", 0, n) // the first m positions match: every match COUNT, n+1 patterns instead of 2^n
+	}
+	for k := 0; k < n; k++ {
+		hit := k < m
+		if !prefix {
+			hit = vrt.Bool(vrt.Nm("hit", k))
+		}
+		td[k] = float64(k%3) + 1
+		pd[k] = vrt.IteF(hit, td[k], 0)
+		matched += vrt.IteI(hit, 1, 0)
+	}
+	yp, e1 := tensor.TensorOf(pd, nil)
+	yt, e2 := tensor.TensorOf(td, nil)
+	if e1 != nil || e2 != nil {
+		vrt.Assume(false)
+	}
+	err := acc.Accumulate(yp, yt)
+	vrt.Assert("valid batch accepted", err == nil)
+	if err != nil {
+		return
+	}
+	vrt.Assert("bit-precise: total grows by the batch size", acc.total == T+n)
+	vrt.Assert("bit-precise: correct grows by the number of equal positions", acc.correct == C+matched)
+	res, rerr := acc.Result()
+	vrt.Assert("bit-precise: Result returns no error", rerr == nil)
+	// with the two counter equalities above this is matched / total, correctly rounded
+	vrt.Assert("bit-precise: Result is the correctly rounded quotient of the counters", res == float64(acc.correct)/float64(acc.total))
+	vrt.Reach("done")
+}
